@@ -327,7 +327,11 @@ impl<'a> Ex<'a> {
                 }
                 c
             };
-            self.ctx.dev(prop, format!("{sig_prefix}|{cls}"), format!("{detail}: areas differ from the model ({cls})"));
+            if cls == "permission" {
+                self.ctx.dev("C09", format!("C09|{}|permission_changed", sig_prefix.split('|').nth(1).unwrap_or("?")), format!("{detail}: an area's permission mask changed although no mem_prot call asked for it"));
+            } else {
+                self.ctx.dev(prop, format!("{sig_prefix}|{cls}"), format!("{detail}: areas differ from the model ({cls})"));
+            }
             self.m.areas = actual;
         }
         for a in self.m.areas.iter() {
